@@ -68,11 +68,12 @@ impl AccessControlConfig {
                     false
                 }
                 (Some(deny), Some(allow)) => {
-                    if allow.iter().any(|a| a == account_id) {
-                        return true;
-                    }
+                    // Denied entries take precedence
                     if deny.iter().any(|a| a == account_id) {
                         return false;
+                    }
+                    if allow.iter().any(|a| a == account_id) {
+                        return true;
                     }
                     false
                 }
